@@ -104,7 +104,7 @@ def observe(seed, tier):
         return S
     base = gen_files(gdir)
     count("files", len(base))
-    rcv, o, e = common.run(["go", "vet", "./gen"], cwd=mod, env=common.GOENV, check=False, timeout=900)
+    rcv, o, e = common.run(["go", "build", "./gen/..."], cwd=mod, env=common.GOENV, check=False, timeout=900)
     if rcv != 0:
         errs = [l for l in (o + e).split("\n") if "_gen.go" in l]
         hit("C13", "base-mode output does not type-check without the cff tag: %s" % (errs[0] if errs else (o + e)[-200:]), {"output": (o + e)[-3000:], "module": mod})
@@ -143,7 +143,7 @@ def observe(seed, tier):
         hit("C20", "source-map mode rejects a package base mode accepts (exit %d)" % rc, {"output": out[-3000:], "module": mods})
     else:
         smap = gen_files(gdirs)
-        rcv, o, e = common.run(["go", "vet", "./gen"], cwd=mods, env=common.GOENV, check=False, timeout=900)
+        rcv, o, e = common.run(["go", "build", "./gen/..."], cwd=mods, env=common.GOENV, check=False, timeout=900)
         if rcv != 0:
             errs = [l for l in (o + e).split("\n") if ".go:" in l]
             hit("C13", "source-map output does not type-check: %s" % (errs[0] if errs else (o + e)[-200:]), {"output": (o + e)[-3000:], "module": mods})
@@ -176,7 +176,7 @@ def observe(seed, tier):
     if "panic:" in out or "goroutine " in out:
         hit("C13", "cff -auto-instrument died with a Go panic", {"output": out[-3000:], "module": moda})
     elif rc == 0:
-        rcv, o, e = common.run(["go", "vet", "./gen"], cwd=moda, env=common.GOENV, check=False, timeout=900)
+        rcv, o, e = common.run(["go", "build", "./gen/..."], cwd=moda, env=common.GOENV, check=False, timeout=900)
         if rcv != 0:
             errs = [l for l in (o + e).split("\n") if ".go:" in l]
             hit("C13", "-auto-instrument output does not type-check: %s" % (errs[0] if errs else (o + e)[-200:]), {"output": (o + e)[-3000:], "module": moda})
